@@ -29,13 +29,18 @@ def atoms():
             ("python_version", "in", "3.7, 3.8"), ("python_version", "not in", "3.7, 3.8"), ("python_version", "in", "3.10"),
             ("python_version", "not in", "3.10,3.11"), ("python_version", "in", "3.7"),
             ("python_full_version", "~=", "3.7.2"), ("python_full_version", "~=", "3.7"), ("python_full_version", "==", "3.7.*"),
-            ("python_full_version", "!=", "3.7.*"), ("python_full_version", "in", "3.7.2, 3.8.0"), ("python_full_version", "not in", "3.7.2")]
+            ("python_full_version", "!=", "3.7.*"), ("python_full_version", "in", "3.7.2, 3.8.0"), ("python_full_version", "not in", "3.7.2"),
+            # the same wildcard / comparison atoms spelled with an extra zero segment (equal as PEP 440 versions, different prefix length or text):
+            # an equality-keyed memo must not hand one spelling's bounds to the other
+            ("python_version", "!=", "3.0.*"), ("python_version", "==", "3.0.*"), ("python_full_version", "!=", "3.7.0.*"), ("python_full_version", "==", "3.7.0.*"),
+            ("python_full_version", "~=", "3.7.0"), ("python_full_version", ">=", "3.7.0"), ("python_version", "~=", "3.7.0")]
     return out
 
 
 SIMPLE = [">=3.7", ">3.7", "<3.7", "<=3.7", "==3.7", "!=3.7", "~=3.7", "==3.*", "!=3.*", "==3.7.*", "!=3.7.*", ">=3.7.2", "<3.10.1", "~=3.7.2",
           "==3.7.2", "!=3.7.2", ">=3", "<4", ">=3.7,<3.8", ">=3.7,<4.0", ">=3.7.0,<3.8.0", "<3.7||>=3.8", "<3.7||>3.7", "",
-          ">=3.10.0", "==3.10.0", "!=3.10.0", "<3.10.0", "<=3.20.0", ">3.0.0", ">=3.10", "<3.100.0", "==3.10.*", "~=3.10.0"]
+          ">=3.10.0", "==3.10.0", "!=3.10.0", "<3.10.0", "<=3.20.0", ">3.0.0", ">=3.10", "<3.100.0", "==3.10.*", "~=3.10.0",
+          "!=3.0.*", "==3.0.*", "!=3.7.0.*", "==3.7.0.*", "~=3.7.0"]
 
 
 def run(chk):
